@@ -49,10 +49,12 @@ class SearchImplementation(SearchFacade):
         '''return all of the prime keys that match the constraints'''
         # alignment of keys       runid  tgt    task   alg     sv     val
         constraints: list[set] = [set(), set(), set(), set(), set(), set()]
+        ranges = []
         results = set()
         for k, v in filter(lambda t: bool(t[1]), parameters._asdict().items()):
             if k == 'runids':
-                constraints[_align(k)].update(v)
+                indices, ranges = SearchFacade._divide(v)
+                constraints[_align(k)].update(indices)
                 constraints[_align(k)].discard(-1)
             else:
                 table = DBI().tables[_table_index(k)]
@@ -61,7 +63,9 @@ class SearchImplementation(SearchFacade):
                     subvalues = subtable.values() if subtable else [-1]
                     constraints[_align(k)].update(subvalues)
         for pk in prime_keys(DBI().tables.prime):
-            if all(not c or e in c for c, e in zip(constraints, pk)):
+            if not _runid_matches(pk[0], constraints[0], ranges):
+                continue
+            if all(not c or e in c for c, e in zip(constraints[1:], pk[1:])):
                 results.add(pk[:keylen])
         return sorted(results)
 
@@ -116,6 +120,13 @@ def _align(param_name: str) -> int:
             ['runids', 'targets', 'tasks', 'algs', 'svs', 'vals']
         )
     }[param_name]
+
+
+def _runid_matches(runid: int, indices: {int}, ranges: []) -> bool:
+    '''no constraint on the run ID, or it is listed, or it is within a range'''
+    if not indices and not ranges:
+        return True
+    return runid in indices or any(runid in r for r in ranges)
 
 
 def _subset(from_table: {str: int}, name: str) -> {str: int}:
